@@ -183,15 +183,24 @@ def requests_C13(docs, emitted, seed, tier):
                 w = idlgen.inject_unknowns(items, ("ref", it["name"]), v, r, 0.6)
                 want = idlgen.expected_keep(items, it["name"], w)
                 hz = []
-                if args and idlgen.contains_type(items, ("ref", it["name"]), w, args):
+                if args and idlgen.d12_fires(items, ("ref", it["name"]), w, args):
                     hz.append("D12")
                 if idlgen.union_known_plus_unknown(items, ("ref", it["name"]), w):
                     hz.append("D31")
                 mark = "".join(f" hazard={h}" for h in hz)
+                # the harness re-decodes what it decoded (defaults filled in): where only THAT second decode would meet the D12
+                # shortcut the request stays in T1 and under the expected-value oracle and only the re-decode is left out
+                nort = ""
+                if args and not hz and want != "err":
+                    try:
+                        if idlgen.d12_fires(items, ("ref", it["name"]), idlgen.project_item_keep(items, it, w), args):
+                            nort = " nort"
+                    except idlgen.Reject:
+                        pass
                 for p in ("bin", "ubin"):
                     if hz and p == "ubin":
                         continue
-                    out.append(f"gd {d['name']}k {it['name']} {p} {idlgen.sexp(w)}{mark} => {want} C13")
+                    out.append(f"gd {d['name']}k {it['name']} {p} {idlgen.sexp(w)}{mark} => {want}{nort} C13")
                 # retention never changes how known fields decode: the plain build of the same document
                 out.append(f"gd {d['name']} {it['name']} bin {idlgen.sexp(w)} => {idlgen.expected(items, it['name'], w)} C13")
     return out
